@@ -158,7 +158,10 @@ func abciSockQ(c net.Conn) (inq, outq int) {
 
 // ---------------------------------------------------------------------------- labels
 
-func abciReqLabel(req *types.Request) string {
+func abciReqLabel(req *types.Request) string  { return abciCut(abciReqLabel0(req)) }
+func abciResLabel(res *types.Response) string { return abciCut(abciResLabel0(res)) }
+
+func abciReqLabel0(req *types.Request) string {
 	switch r := req.Value.(type) {
 	case *types.Request_Echo:
 		return r.Echo.Message
@@ -198,7 +201,7 @@ func abciReqTyp(req *types.Request) string {
 	return "?"
 }
 
-func abciResLabel(res *types.Response) string {
+func abciResLabel0(res *types.Response) string {
 	if res == nil {
 		return "nil"
 	}
@@ -322,6 +325,8 @@ type abciSock struct {
 	pend     []*types.Request
 	rest     []byte // second half of a partially written frame
 	srvEOF   bool   // the peer's reader saw EOF / an error
+	peerShut bool   // the peer closed (or half-closed) the link: the client's reader must notice
+	faulted  bool   // a fault was injected somewhere on the link / in the application
 	gates    map[string]chan struct{}
 	inGate   string
 	calls    map[int]*abciCall
@@ -423,6 +428,12 @@ func (s *abciSock) quiescent() bool {
 			return false // the client's recv routine is about to be woken
 		}
 	}
+	s.mu.Lock()
+	shut := s.peerShut
+	s.mu.Unlock()
+	if shut && recvReading {
+		return false // EOF is pending for the client's recv routine
+	}
 	return true
 }
 
@@ -507,7 +518,7 @@ func (s *abciSock) obs(settled bool, final bool) {
 			}
 			stuck = append(stuck, abciM{"call": ci.call, "t": ci.t, "state": st, "where": where})
 		}
-		if ci.handle != nil && ci.handle.Response != nil {
+		if ci.handle != nil && ci.handle.Response != nil && ci.label != "F" {
 			got = append(got, ci.label)
 		}
 	}
@@ -760,9 +771,15 @@ func (s *abciSock) fault(st abciStep) {
 		s.write([]byte{10, 0xff, 0xff, 0xff, 0xff, 0xff}) // length 5 (zig-zag varint 10), five bytes that are no protobuf message
 	case "close", "midframe":
 		s.tr.ev("Fault", abciM{"f": f, "r": "-", "xt": "-"})
+		s.mu.Lock()
+		s.peerShut = true
+		s.mu.Unlock()
 		s.srv.Close()
 	case "halfclose":
 		s.tr.ev("Fault", abciM{"f": f, "r": "-", "xt": "-"})
+		s.mu.Lock()
+		s.peerShut = true
+		s.mu.Unlock()
 		if uc, ok := s.srv.(*net.UnixConn); ok {
 			uc.CloseWrite()
 		}
@@ -812,7 +829,8 @@ func abciSockRun(tr *abciTrace, dir string, idx int, run abciRun) {
 	}
 	// end of the schedule: nothing more will be done for the calls in flight
 	s.obs(s.settle(), true)
-	// clean up (outside the trace)
+	// clean up: what the released goroutines still log is not part of the run
+	tr.ev("Cleanup", abciM{})
 	s.mu.Lock()
 	for _, ch := range s.gates {
 		select {
@@ -830,6 +848,7 @@ func abciSockRun(tr *abciTrace, dir string, idx int, run abciRun) {
 	if cli.IsRunning() {
 		cli.Stop()
 	}
+	s.settle() // callers that were released have logged their last events before the next run starts
 }
 
 // ---------------------------------------------------------------------------- entry point
